@@ -425,6 +425,78 @@ namespace plan
       b->r.k = mpq_class(modn(op.arg(0), 5) + 1);
       assert_stmt(b);
     }
+    else if (n == "blockade")
+    { // every timeline an open atom could go to starts with a pinned fact, and the horizon leaves room for exactly one more atom
+      // after it: `goal g = new v.SP(a:3.0, duration:4.0);` (v an object variable over the class) and, on every instance in v's
+      // domain, `fact f = new o.SP(a:<other>, start:0.0, duration:4.0);`, `horizon <= 10.0;`. Always solvable (the goal goes
+      // after the fact of whichever instance is chosen); the only way there is the ordering "pinned atom before open atom".
+      // The open goal is stated first, in the middle or last (the order decides which branch of the smart type stores the literals)
+      std::vector<std::pair<std::string, int>> vs; // (variable, predicate)
+      for (auto &v : m.ovars)
+        if (m.classes[v.cls].is_sv && !m.classes[v.cls].is_agent)
+          for (int pi : m.classes[v.cls].preds)
+            if (!m.preds[pi].rparams.empty() && !m.any_param_fixed(pi))
+              vs.push_back({v.name, pi});
+      if (vs.empty())
+        return;
+      const auto &pick = vs[modn(op.arg(0), vs.size())];
+      int vcls = -1;
+      for (auto &v : m.ovars)
+        if (v.name == pick.first)
+          vcls = v.cls;
+      std::vector<std::string> dom;
+      for (auto &in : m.insts)
+        if (m.is_subclass(in.cls, vcls))
+          dom.push_back(in.name);
+      if (dom.size() < 2 || dom.size() > 3)
+        return;
+      const int p = pick.second;
+      auto formula = [&](bool fact, const std::string &scope, long k, bool pinned)
+      {
+        auto it = std::make_shared<BodyItem>();
+        it->k = BodyItem::SUBGOAL;
+        it->pred = p;
+        it->is_fact = fact;
+        it->local = (fact ? "f" : "g") + std::to_string(m.n_formulas++);
+        it->scope = {scope};
+        auto arg = [&](const std::string &name, const mpq_class &v)
+        {
+          Arg a;
+          a.param = name;
+          a.val.k = v;
+          it->args.push_back(a);
+        };
+        arg(m.preds[p].rparams[0], mpq_class(k));
+        if (pinned)
+          arg("start", 0);
+        arg("duration", 4);
+        m.mentioned.insert(scope);
+        Stmt st;
+        st.k = Stmt::FORMULA;
+        st.item = it;
+        st.text = std::string(fact ? "fact " : "goal ") + it->local + " = new " + scope + "." + m.preds[p].name + "(" + args_text(it->args) + ");";
+        m.stmts.push_back(st);
+        ++order;
+        for (auto &a : m.preds[p].rparams)
+          top.nums.push_back({it->local, a});
+        top.nums.push_back({it->local, "start"});
+        top.nums.push_back({it->local, "end"});
+      };
+      const size_t goal_at = static_cast<size_t>(modn(op.arg(1), dom.size() + 1));
+      for (size_t i = 0; i <= dom.size(); ++i)
+      {
+        if (i == goal_at)
+          formula(false, pick.first, 7, false);
+        if (i < dom.size())
+          formula(true, dom[i], static_cast<long>(i) + 1, true);
+      }
+      auto b = std::make_shared<B>();
+      b->k = B::REL;
+      b->rel = LEQ;
+      b->l.t.push_back({mpq_class(1), {"horizon"}});
+      b->r.k = mpq_class(10);
+      assert_stmt(b);
+    }
     else if (n == "horizon")
     { // horizon <= k keeps timelines tight enough for conflicts
       auto b = std::make_shared<B>();
